@@ -17,7 +17,7 @@ func init() {
 			"Form.requiredHashCount")
 		o.pins("cue/literal", "Unquote", "ParseQuotes", "QuoteInfo.Unquote", "hasClosingDelimPrefix",
 			"skipWhitespaceAfterNewline", "isSimple", "unquoteChar", "unhex")
-		o.pins("cue/literal", "ParseNum", "NumInfo.next", "NumInfo.digitVal", "NumInfo.scanMantissa", "NumInfo.scanNumber")
+		o.pins("cue/literal", "ParseNum", "NumInfo.next", "NumInfo.digitVal", "NumInfo.scanMantissa", "NumInfo.scanNumber", "NumInfo.decimal")
 		o.pins("cue/scanner", "Scanner.scanNumber", "Scanner.scanMantissa", "Scanner.scanFieldIdentifier",
 			"Scanner.scanIdentifier", "isLetter", "isDigit", "Scanner.next")
 		o.pins("cue/ast", "IsValidIdent", "isLetter", "isDigit")
